@@ -657,6 +657,34 @@ func runDeterminism(ids []string) int {
 	return 0
 }
 
+// selftest calibrate: the os/exec model against real /bin/sh children.
+func runCalibrate() int {
+	b, err := build()
+	defer b.cleanup()
+	if err != nil {
+		harness("%v", err)
+		return 2
+	}
+	return calibrateWith(b)
+}
+
+func calibrateWith(b *built) int {
+	cmd := exec.Command(b.bin, "-test.run", "^TestCalibrate$", "-test.count", "1")
+	cmd.Env = append(os.Environ(), "VERIF_CALIBRATE=1")
+	cmd.Dir = b.scratch
+	out, err := cmd.CombinedOutput()
+	for _, ln := range strings.Split(string(out), "\n") {
+		if strings.HasPrefix(ln, "calibrate ") {
+			fmt.Println(ln)
+		}
+	}
+	if err != nil {
+		harness("exec-model calibration failed: %v %s", err, oneLine(string(out), 1500))
+		return 2
+	}
+	return 0
+}
+
 func runWorkerEnv(b *built, job map[string]any, name string, timeout time.Duration, env ...string) workerResult {
 	old := map[string]string{}
 	_ = old
@@ -701,6 +729,9 @@ func main() {
 	case "replay":
 		os.Exit(runReplay(os.Args[2]))
 	case "selftest":
+		if len(os.Args) > 2 && os.Args[2] == "calibrate" {
+			os.Exit(runCalibrate())
+		}
 		if len(os.Args) > 2 && os.Args[2] == "determinism" {
 			ids := os.Args[3:]
 			os.Exit(runDeterminism(ids))
